@@ -66,6 +66,8 @@ type Event struct {
 	// statistics only (not compared with the model): before this tick the
 	// bottom port could not send while a translation reply was waiting
 	Blocked bool `json:"blocked,omitempty"`
+	// statistics only: some incoming buffer was non-empty before this tick
+	Pending bool `json:"pending,omitempty"`
 }
 
 type Config struct {
@@ -277,6 +279,7 @@ func (r *runner) apply(e *Event) (crashed bool) {
 		e.Acc = bp(r.tr.Deliver(rsp) == nil)
 	case "tick":
 		e.Blocked = !r.bot.CanSend() && r.tr.PeekIncoming() != nil
+		e.Pending = r.top.PeekIncoming() != nil || r.bot.PeekIncoming() != nil || r.tr.PeekIncoming() != nil
 		e.Progress = bp(r.at.Tick())
 	case "rt":
 		m := r.top.RetrieveOutgoing()
@@ -520,7 +523,12 @@ func generate(rng *vh.Rng, hostile bool) Case {
 			}
 			g.do(g.botRsp(o, hostile && rng.Intn(3) == 0))
 		case 3:
+			// often several ticks in a row: the engine would have stopped after the first
+			// one without progress, so the following ones must not find anything to do
 			g.do(Event{E: "tick"})
+			for rng.Intn(3) == 0 && !g.crashed {
+				g.do(Event{E: "tick"})
+			}
 		case 4:
 			g.do(Event{E: "rt"})
 		case 5:
@@ -583,6 +591,9 @@ func (g *gen) finish() {
 		for i := 0; i < 6 && !g.crashed; i++ {
 			g.do(Event{E: "rc"})
 			g.do(Event{E: "tick"})
+			if i%2 == 1 && !g.crashed {
+				g.do(Event{E: "tick"})
+			}
 		}
 		if !g.crashed {
 			g.do(Event{E: "rc"})
